@@ -10,6 +10,7 @@ import (
 	"encoding/json"
 	"fmt"
 	"os"
+	"runtime"
 	"strconv"
 	"sync"
 	"time"
@@ -180,8 +181,15 @@ func IteInt(c bool, a, b int) int {
 	return b
 }
 
-// Sched lets all spawned goroutines run until they finish or block.
-func Sched() {}
+// Sched lets all spawned goroutines run until they finish or block.  Natively the Go
+// scheduler cannot be asked for quiescence: the replay yields and sleeps a little so that
+// goroutines woken by the harness (ticker, timers, eviction) get to run.
+func Sched() {
+	for k := 0; k < 4; k++ {
+		runtime.Gosched()
+		time.Sleep(2 * time.Millisecond)
+	}
+}
 
 // Preempt enables context switches at synchronisation points, at most n per path.
 func Preempt(n int) {}
